@@ -386,6 +386,15 @@ class Routine:
                             self.exits.append(Exit("delegate", b, ex[0], cls=("DELEGATE", chain[-1], tuple(cargs), tuple(chain[:-1])),
                                                    err=None))
                     else:
+                        # `iter.map(fallible).collect::<Result<_, _>>().map(..)` returned as is: the first error of the collected
+                        # items is the routine's error (the same decision as `collect()?`)
+                        pc_ = strip(payload)
+                        for _ in range(4):
+                            if isinstance(pc_, tuple) and pc_[0] == "call" and pc_[1] in ("map", "map_err", "and_then") and pc_[3] and "result::Result" in pc_[2]:
+                                pc_ = strip(pc_[3][0])
+                        if isinstance(pc_, tuple) and pc_[0] == "call" and pc_[1] == "collect":
+                            self.exits.append(Exit("err", b, ex[0], cls=("OTHER", pc_), err=None))
+                            continue
                         # Option→Result conversions: ok_or(opt, E)
                         p = strip(payload)
                         if isinstance(p, tuple) and p[0] == "call" and p[1] == "ok_or" and len(p[3]) == 2:
@@ -1102,6 +1111,13 @@ def rule_r6(ctx, prog, rule="R6", only=None):
                     if nxt:
                         rb_, re_, chain_, bad_ = producer_chain(prog, x.body, nxt[0][3][0])
                         okc = bad_ is None and is_p(re_, 1) and not rb_.is_closure
+                        a0_ = strip(c[2][0])
+                        for _ in range(3):
+                            if isinstance(a0_, tuple) and a0_[0] in ("ref", "deref"):
+                                a0_ = strip(a0_[1])
+                        if not okc and isinstance(a0_, tuple) and a0_[0] == "call" and a0_[1] in ("index_axis", "column") and is_p(a0_[3][0], 1):
+                            # index form: column k of the input for k ranging over 0..n (GridBuilder::from_array/column-order checks the range)
+                            okc = any(isinstance(y, tuple) and y[0] == "call" and y[1] == "next" for y in _walk(a0_[3][-1]))
                 ob(i, "COLLECT-DELEGATE", okc, det, "first error of B::from_array over the columns is returned" if okc else "found %s" % det, x)
                 pos += 1
                 continue
